@@ -85,7 +85,7 @@ def one_input(args):
         lines.append({"with": files3(v4), "without": files3(v5)})
         tags.append({"input": idx, "mode": mode, "variant": "-qId/-rId vs restricted files", "qsel": qsel, "rsel": rsel})
         # V6: one query all alone (a plain one and the last one): runs in which no molecule has a second-pass alignment
-        for solo in (qids[1], qids[-2], qids[-1]):
+        for solo in (qids[0], qids[1], qids[-1]):     # a split molecule (joinable), a plain one, the short contig's
             rp6, qp6 = pipecases.write_input(wd, inp, f"v6_{solo}", qsel={solo})
             v6 = pipecases.run_once(wd, rp6, qp6, f"v6_{solo}", mode, extra)
             status[f"alone_{solo}"] = v6["status"]
